@@ -216,8 +216,12 @@ func runC11(cfg Config) {
 		"operation sequences (GetChunk/HasChunk over a 4-ID universe) on real Cache / RepairableCache / StoreRouter / FailoverGroup "+
 			"wrappers around scripted members (contents incl. invalid objects, verify on/off, fault schedules: healthy, permanently failing, "+
 			"failing at call k) in every chain shape the CLI builds (router of single stores and failover groups, with/without cache, "+
-			"repairable or not): results and member call logs vs the model; concurrent FailoverGroup with one healthy member and SwapStore "+
-			"swapped under load (monitors). non-trivial = distinct case with >= 2 groups or a cache and >= 2 ops")
+			"repairable or not): results and member call logs vs the model; FailoverGroup (2-6 GetChunk/HasChunk callers, 2-4 scripted members, "+
+			"one healthy) and SwapStore/SwapWriteStore (2-5 requesters, 1-3 Swap calls, a Close) under a cooperative scheduler through the "+
+			"verifChain hooks: the totally ordered event trace must be a run of the Lean lock-level machine with the same values and results "+
+			"(trace validation; monitors: no request fails with a healthy member, missing is reported missing, no store used after Swap closed "+
+			"it, every request returns); plus free-running stress of both (monitors). non-trivial = distinct case with >= 2 groups or a cache "+
+			"and >= 2 ops; failover trace with a failover; swap trace with a swap overlapping a request")
 	m, err := StartModel(cfg.Driver)
 	if err != nil {
 		fatal(err)
@@ -294,6 +298,9 @@ func runC11(cfg Config) {
 		}
 		// monitor: a chunk delivered as valid must be the good data of its ID (C03 through the chain) — by construction of the result string
 	}
+
+	// FailoverGroup and SwapStore under a cooperative scheduler: event traces replayed through the step machines
+	runC11Conc(cfg, rep, m, rand.New(rand.NewSource(cfg.Seed^0x11c0)))
 
 	// concurrent failover: one healthy member, the others fail; every request must succeed
 	for it := 0; it < cfg.N(100, 2000); it++ {
@@ -540,7 +547,6 @@ func runC11(cfg Config) {
 		}
 		os.RemoveAll(dir)
 	}
-	runC11Conc(cfg, rep, m, rng)
 	c11CLI(cfg, rep, rng)
 	rep.Write(cfg.Out)
 }
